@@ -167,9 +167,18 @@ fn base_frame<R: Rng>(rng: &mut R) -> Affine {
 
 fn convex_radii<R: Rng>(rng: &mut R, n: usize) -> Vec<f64> {
     // irregular but convex: perturb some radii, keep if the oracle says convex
+    let patterned = rng.gen_bool(0.35);
     for _ in 0..40 {
         let scale = rng.gen_range(0.5, 1.6);
-        let radii: Vec<f64> = (0..n).map(|_| if rng.gen_bool(0.5) { scale } else { scale * rng.gen_range(0.75, 1.2) }).collect();
+        let radii: Vec<f64> = if patterned {
+            // polygons with symmetry short of regular: radii repeating with period 2, 3 or n/2
+            // (rhombi, alternating hexagons - equal sides, unequal radii), or two values only
+            let period = [2usize, 2, 3, (n / 2).max(2)][rng.gen_range(0, 4)];
+            let vals: Vec<f64> = (0..period).map(|_| scale * [1., 1., 0.6, 0.8, 0.9, 0.95, 1.1][rng.gen_range(0, 7)]).collect();
+            (0..n).map(|i| vals[i % period]).collect()
+        } else {
+            (0..n).map(|_| if rng.gen_bool(0.5) { scale } else { scale * rng.gen_range(0.75, 1.2) }).collect()
+        };
         if let Some(s) = (ShapeSpec::Radial { radii: radii.clone() }).line() {
             if s.oshape().is_convex() && radii.iter().any(|r| (*r - radii[0]).abs() > 1e-3) {
                 return radii;
